@@ -54,12 +54,14 @@ void Normalizer::CollectLocalNames(const SyntaxTree::Node& root) {
 }
 
 void Normalizer::Quantifier(SyntaxTree::Node& quant) {
-  if (quant(0).token.id == TokenID::NT_ENUM_DECL) {
+  const auto isEnumeration = quant(0).token.id == TokenID::NT_ENUM_DECL;
+  if (isEnumeration) {
     EnumDeclaration(quant);
   }
   // Note: first declaration of enumeration can be a tuple
   if (quant(0).token.id == TokenID::NT_TUPLE_DECL) {
-    TupleDeclaration(quant(0), quant(2));
+    // Note: nested quantifier created from enumeration holds a copy of the domain, which is out of the scope
+    TupleDeclaration(quant(0), isEnumeration ? quant(2)(2) : quant(2));
   }
 }
 
